@@ -18,6 +18,21 @@ SPECS = [
          params=[("enabled_", "bool"), ("rtr_allowed_", "bool"), ("sent_", "bool")], ret="bool", fallthrough="sent_",
          calls={"self.enabled": "enabled_", "self.rtr_allowed": "rtr_allowed_"},
          stmts={"self.pdo_node.network.send_message(self.cob_id, bytes(), remote=True)": "let sent_ := true"}),
+    # PdoMap.subscribe: is Network.subscribe(self.cob_id, self.on_message) called?
+    dict(module="canopen.pdo.base", qualname="PdoMap.subscribe", name="src_pdo_subscribe_calls",
+         params=[("enabled_", "bool"), ("called_", "bool")], ret="bool", fallthrough="called_",
+         calls={"self.enabled": "enabled_"},
+         stmts={"self.pdo_node.network.subscribe(self.cob_id, self.on_message)": "let called_ := true"}),
+    # Network.subscribe: is the callback appended to the list of this CAN id?
+    dict(module="canopen.network", qualname="Network.subscribe", name="src_net_subscribe_adds",
+         params=[("already_", "bool"), ("added_", "bool")], ret="bool", fallthrough="added_",
+         calls={"callback not in self.subscribers[can_id]": "(negb already_)"},
+         skip_stmts=["self.subscribers.setdefault(can_id, list())"],
+         stmts={"self.subscribers[can_id].append(callback)": "let added_ := true"}),
+    # PdoMap.transmit: one frame with the map's COB-ID and data
+    dict(module="canopen.pdo.base", qualname="PdoMap.transmit", name="src_pdo_transmit_sends",
+         params=[("sent_", "bool")], ret="bool", fallthrough="sent_",
+         stmts={"self.pdo_node.network.send_message(self.cob_id, self.data)": "let sent_ := true"}),
 ]
 
 
